@@ -17,6 +17,7 @@ import (
 func init() {
 	rt.Register("C05_ArithFree", C05_ArithFree)
 	rt.Register("C05_ArithSkeleton", C05_ArithSkeleton)
+	rt.Register("C05_ArithLongChain", C05_ArithLongChain)
 }
 
 // binop evaluates  left op right  on int64; division by zero is an
@@ -378,5 +379,50 @@ func C05_ArithSkeleton() {
 			in = append(in, ')')
 		}
 	}
+	Check(in)
+}
+
+// C05_ArithLongChain: a flat chain of L one-digit operands on one precedence
+// level (a left-recursive rule re-entered L times at one position), with the
+// first and last digit, the middle operator and the last operator symbolic.
+func C05_ArithLongChain() {
+	l := rt.Param("L", 104)
+	level := rt.Choose("level", rt.Param("levels", 3)) // + chain, * chain, chain in parentheses
+	digit := func() byte {
+		b := rt.Byte("in")
+		rt.Assume(b >= '0' && b <= '9')
+		return b
+	}
+	var in []byte
+	if level == 2 {
+		in = append(in, '2', '*', '(')
+	}
+	for k := 0; k < l; k++ {
+		if k > 0 {
+			switch {
+			case k == l/2 && rt.Param("mid", 1) == 1 || k == l-1:
+				o := rt.Byte("in")
+				if level == 1 {
+					rt.Assume(o == '*' || o == '/')
+				} else {
+					rt.Assume(o == '+' || o == '-' || o == '*' || o == '/')
+				}
+				in = append(in, o)
+			case level == 1:
+				in = append(in, '*')
+			default:
+				in = append(in, '+')
+			}
+		}
+		if k == 0 || k == l-1 {
+			in = append(in, digit())
+		} else {
+			in = append(in, '1')
+		}
+	}
+	if level == 2 {
+		in = append(in, ')')
+	}
+	rt.Cover("long flat chain")
 	Check(in)
 }
